@@ -12,6 +12,7 @@ CONSTANTS
   Valences = {"neg"}
   Scores = {"none"}
   Unscoreds = {FALSE}
+  Msgs = {"text"}
   SuppU <- SuppNone
   MaxFb = 2
   MaxSupp = 0
